@@ -38,6 +38,7 @@ package nflog
 // C10/C04: GC drops exactly the entries whose expiry is not after the GC instant and keeps every other entry untouched.
 //@ func (*Log).GC
 //@   props C10 C04
+//@   ensures [monitor-lock-released] count("Mutex).Lock") == count("Mutex).Unlock") && count("Mutex).Lock") == 1
 //@   requires l != nil && l.metrics != nil && l.metrics.gcDuration != nil
 //@   requires forall k string :: k in l.st ==> l.st[k] != nil
 //@   ensures [exact] result1 == nil ==> (forall k string :: (k in l.st) == (old(k in l.st) && tsT(old(l.st[k].ExpiresAt)) > ret("Log).now")))
@@ -56,6 +57,8 @@ package nflog
 // timestamp, and receiver data handed through unchanged. Other keys are never touched; timestamps never go back.
 //@ func (*Log).Log
 //@   props C10 C04
+//@   ensures [monitor-lock-released] count("Mutex).Lock") == count("Mutex).Unlock") && count("Mutex).Lock") <= 1
+//@   at call state).merge assert [monitor-lock-held] count("Mutex).Lock") == 1 && count("Mutex).Unlock") == 0
 //@   requires l != nil && r != nil && l.st != nil && wfState(l.st) && l.broadcast != nil
 //@   ensures [future-kept] old(logKey(gkey, r) in l.st) && old(tsT(l.st[logKey(gkey, r)].Entry.Timestamp)) > first("Log).now")
 //@             ==> result == nil && dom(l.st) == old(dom(l.st)) && vals(l.st) == old(vals(l.st)) && !called("broadcast")
@@ -88,6 +91,8 @@ package nflog
 // stored, keys not mentioned keep their entry, and a batch that does not decode changes nothing.
 //@ func (*Log).Merge
 //@   props C10
+//@   ensures [monitor-lock-released] count("Mutex).Lock") == count("Mutex).Unlock") && count("Mutex).Lock") <= 1
+//@   at call state).merge assert [monitor-lock-held] count("Mutex).Lock") == 1 && count("Mutex).Unlock") == 0
 //@   requires l != nil && l.st != nil && wfState(l.st) && l.broadcast != nil && l.metrics != nil && l.metrics.propagatedMessagesTotal != nil && l.logger != nil
 //@   ensures [monotone] forall k string :: old(k in l.st) ==> k in l.st && tsT(l.st[k].Entry.Timestamp) >= old(tsT(l.st[k].Entry.Timestamp))
 //@   ensures [newer-only] forall k string :: old(k in l.st) && l.st[k] != old(l.st[k]) ==> tsT(l.st[k].Entry.Timestamp) > old(tsT(l.st[k].Entry.Timestamp))
@@ -193,6 +198,8 @@ package nflog
 //@   assigns q.groupKey
 //@ func (*Log).Query$1
 //@   props C04 C10
+//@   ensures [monitor-lock-released] count("RWMutex).RLock") == count("RWMutex).RUnlock") && count("RWMutex).RLock") <= 1
+//@   at call nflog.stateKey assert [monitor-lock-held] count("RWMutex).RLock") == 1 && count("RWMutex).RUnlock") == 0
 //@   nosafe
 //@   at call dynamic:elem:freevar:params assert [one-query-object] arg0 == q && fresh(arg0)
 //@   at call nflog.stateKey assert [key-of-group-and-receiver] arg0 == q.groupKey && arg1 == q.recv && q.recv != nil && q.groupKey != "" && count("dynamic:elem:freevar:params") == len(deref(params))
@@ -205,3 +212,34 @@ package nflog
 //@   props C04 C10
 //@   nosafe
 //@   ensures [answer-of-the-lookup] called("Query$1") && result0 == ret("Query$1") && result1 == ret1("Query$1")
+
+// ---- C10 / C11: the full state (push/pull exchange, snapshot): every stored entry is encoded, once; an encoding
+// error aborts with that error and no partial output.
+//@ func (state).MarshalBinary
+//@   props C10 C11 C19
+//@   nosafe
+//@   at call protodelim.MarshalTo assert [a-stored-entry] exists k string :: (k in s) && s[k] == unbox(arg1, *pb.MeshEntry)
+//@   ensures [every-entry-encoded-once] result1 == nil ==> count("protodelim.MarshalTo") == len(s)
+//@   ensures [error-aborts] called("protodelim.MarshalTo") && ret1("protodelim.MarshalTo") != nil ==> result1 == ret1("protodelim.MarshalTo") && result0 == nil
+//@   loop 1 invariant count("protodelim.MarshalTo") == len(visited) && (called("protodelim.MarshalTo") ==> ret1("protodelim.MarshalTo") == nil)
+//@   loop 1 invariant (forall k string :: (k in visited) ==> (k in s)) && dom(s) == old(dom(s))
+//@   noeffect protodelim.MarshalTo
+
+// the snapshot and the push/pull message are the full state, read under the store's read lock
+//@ func (*Log).Snapshot
+//@   props C11
+//@   nosafe
+//@   ensures [monitor-lock-released] count("RWMutex).RLock") == 1 && count("RWMutex).RUnlock") == 1
+//@   at call state).MarshalBinary assert [state-of-this-store-under-lock] arg0 == l.st && count("RWMutex).RLock") == 1 && count("RWMutex).RUnlock") == 0
+//@   at call bytes.NewReader assert [copy-the-encoding] arg0 == ret("state).MarshalBinary") && ret1("state).MarshalBinary") == nil
+//@   at call io.Copy assert [into-the-given-writer] arg0 == w
+//@   ensures [encoding-error-writes-nothing] called("state).MarshalBinary") && ret1("state).MarshalBinary") != nil ==> result1 == ret1("state).MarshalBinary") && !called("io.Copy")
+//@   ensures [write-result-reported] called("io.Copy") ==> result0 == ret("io.Copy") && result1 == ret1("io.Copy")
+//@   noeffect state).MarshalBinary
+//@ func (*Log).MarshalBinary
+//@   props C09 C10 C19
+//@   nosafe
+//@   ensures [monitor-lock-released] count("Mutex).Lock") == 1 && count("Mutex).Unlock") == 1
+//@   at call state).MarshalBinary assert [state-of-this-store-under-lock] arg0 == l.st && count("Mutex).Lock") == 1 && count("Mutex).Unlock") == 0
+//@   ensures [full-state] result0 == ret("state).MarshalBinary") && result1 == ret1("state).MarshalBinary")
+//@   noeffect state).MarshalBinary
